@@ -297,7 +297,5 @@ Proof.
   - destruct Hin as [Hin|Hin]; [discriminate|]. destruct (IHrel_events _ _ Hin). split; [right|]; assumption.
   - destruct Hin as [Hin|Hin]; [discriminate|]. eauto.
   - destruct Hin as [Hin|Hin]; [discriminate|]. destruct (IHrel_events _ _ Hin). split; [right|]; assumption.
-  - destruct Hin as [Hin|Hin]; [discriminate|]. destruct (IHrel_events _ _ Hin).
-    split; [apply in_or_app; right|]; assumption.
   - destruct Hin as [Hin|Hin]; [discriminate|]. eauto.
 Qed.
